@@ -42,6 +42,13 @@ type C12Case struct {
 	ShareTemplate bool        `json:"share_template"` // the template given to the source is also the defaults value that is stacked on
 	Args          []C12Arg    `json:"args"`
 	TermAt        int         `json:"term_at"` // index in Args before which "--" is inserted (-1: none)
+	// Parser says who parses the command line: "" / "source" = the source does,
+	// inside Value() (NewSetWithArgs); "program" = the harness, like a program
+	// that parses early, calls Flags.Parse(argv) on the set NewSetWithArgs
+	// registered its flags in, before Value(); "flagset" (pflag only) = the
+	// harness owns the FlagSet, hands it to NewSetWithFlagSet /
+	// NewDefaultSetWithFlagSet and parses it before Value().
+	Parser string `json:"parser,omitempty"`
 }
 
 // ------------------------------------------------------------ generation
@@ -273,6 +280,11 @@ func genC12(src string) func(t *rapid.T) C12Case {
 			c.Data.Layers = append(c.Data.Layers, l)
 		}
 		c.ShareTemplate = rapid.Bool().Draw(t, "share_template")
+		if src == "pflag" {
+			c.Parser = rapid.SampledFrom([]string{"source", "program", "source", "flagset", "source", "source"}).Draw(t, "parser")
+		} else {
+			c.Parser = rapid.SampledFrom([]string{"source", "program", "source"}).Draw(t, "parser")
+		}
 
 		// command line
 		density := rapid.SampledFrom([]int{50, 30, 70, 90}).Draw(t, "arg_density")
@@ -423,6 +435,7 @@ type regFlag struct {
 type c12Source struct {
 	flags map[string]regFlag
 	value func(*dials.Type) (reflect.Value, error)
+	parse func() error // the program's own Parse of the registered FlagSet
 }
 
 func protect(f func()) (msg string) {
@@ -438,7 +451,7 @@ func protect(f func()) (msg string) {
 	return ""
 }
 
-func newC12Source(src string, cfg nameCfg, tmpl any, argv []string) (*c12Source, error) {
+func newC12Source(src, parser string, cfg nameCfg, tmpl any, argv []string) (*c12Source, error) {
 	var tagEnc, fieldEnc caseconversion.EncodeCasingFunc
 	switch cfg.Tag {
 	case "kebab":
@@ -467,11 +480,25 @@ func newC12Source(src string, cfg nameCfg, tmpl any, argv []string) (*c12Source,
 		} else {
 			nc = &dpflag.NameConfig{FieldNameEncodeCasing: fieldEnc, TagEncodeCasing: tagEnc}
 		}
-		s, err := dpflag.NewSetWithArgs(nc, tmpl, argv)
+		var s *dpflag.Set
+		var err error
+		if parser == "flagset" {
+			// the program owns the FlagSet (the cobra-style constructors; no ParseFunc)
+			fs := spflag.NewFlagSet("prog", spflag.ContinueOnError)
+			fs.SetOutput(io.Discard)
+			if cfg.Tag == "kebab" && cfg.Field == "camel" {
+				s, err = dpflag.NewDefaultSetWithFlagSet(tmpl, fs)
+			} else {
+				s, err = dpflag.NewSetWithFlagSet(nc, tmpl, fs)
+			}
+		} else {
+			s, err = dpflag.NewSetWithArgs(nc, tmpl, argv)
+		}
 		if err != nil {
 			return nil, err
 		}
 		s.Flags.SetOutput(io.Discard)
+		out.parse = func() error { return s.Flags.Parse(argv) }
 		s.Flags.VisitAll(func(f *spflag.Flag) { out.flags[f.Name] = regFlag{Def: f.DefValue, Short: f.Shorthand} })
 		out.value = func(t *dials.Type) (reflect.Value, error) { return s.Value(ctx, t) }
 		return out, nil
@@ -487,6 +514,7 @@ func newC12Source(src string, cfg nameCfg, tmpl any, argv []string) (*c12Source,
 		return nil, err
 	}
 	s.Flags.SetOutput(io.Discard)
+	out.parse = func() error { return s.Flags.Parse(argv) }
 	s.Flags.VisitAll(func(f *flag.Flag) { out.flags[f.Name] = regFlag{Def: f.DefValue} })
 	out.value = func(t *dials.Type) (reflect.Value, error) { return s.Value(ctx, t) }
 	return out, nil
@@ -503,6 +531,13 @@ func runC12(c C12Case) vrt.Verdict {
 	cfg, ok := parseNameCfg(c.NameCfg)
 	if !ok {
 		return vrt.Discardf("unknown name config")
+	}
+	parser := c.Parser
+	if parser == "" {
+		parser = "source"
+	}
+	if parser != "source" && parser != "program" && !(parser == "flagset" && c.Source == "pflag") {
+		return vrt.Discardf("unknown parser")
 	}
 	T, err := c.Shape.Build()
 	if err != nil {
@@ -639,13 +674,13 @@ func runC12(c C12Case) vrt.Verdict {
 	pt := ptrify.Pointerify(T, template.Elem())
 
 	where := func() string {
-		return fmt.Sprintf("[%s source, name config %s, argv %q]", c.Source, c.NameCfg, argv)
+		return fmt.Sprintf("[%s source, parsed by the %s, name config %s, argv %q]", c.Source, parser, c.NameCfg, argv)
 	}
 
 	// construct the source
 	var srcObj *c12Source
 	var ctorErr error
-	if msg := protect(func() { srcObj, ctorErr = newC12Source(c.Source, cfg, template.Interface(), argv) }); msg != "" {
+	if msg := protect(func() { srcObj, ctorErr = newC12Source(c.Source, parser, cfg, template.Interface(), argv) }); msg != "" {
 		if goCollision != "" && strings.Contains(msg, "duplicate field") {
 			// Outside the quantifier: the config type does not have distinct
 			// flattened leaf names (AlphaBravo vs Alpha.Bravo flatten to the
@@ -706,6 +741,25 @@ func runC12(c C12Case) vrt.Verdict {
 		}
 		if strings.Count(l.Path, ".") >= 1 {
 			labelSet["nested"] = true
+		}
+	}
+
+	// who parses: a program that owns or pre-parses the FlagSet does so now,
+	// after the constructor registered the flags and before dials asks for
+	// the value; Value() must then use the parsed state as it is
+	labelSet["parser="+parser] = true
+	if parser != "source" {
+		var parseErr error
+		if msg := protect(func() { parseErr = srcObj.parse() }); msg != "" {
+			return vrt.KeyedViolationf("program-parse-panic", "the program's Flags.Parse(argv) panicked: %s %s", msg, where())
+		}
+		if parseErr != nil {
+			if hasBad && badParsed {
+				// (d): the literal is already an error for the program
+				l := byPath[badPath]
+				return vrt.OK(len(flagVal) > 0, append(keys(labelSet), "out-of-range", "out-of-range:"+l.Class.String(), "out-of-range-at-program-parse")...)
+			}
+			return vrt.Violationf("the program's Flags.Parse(argv) failed on a valid command line: %v %s", parseErr, where())
 		}
 	}
 
@@ -870,13 +924,15 @@ func keys(m map[string]bool) []string {
 }
 
 const c12Rule = "config struct types from the shape grammar restricted to flag-supported leaves (bool, all integer widths, floats, complex, string, time.Duration, time.Time, text-unmarshalable types, []string, integer slices, map[string]string, map[string][]string, map[string]struct{}, named scalars) plus a few unsupported bystander leaves and skipped fields, nested through structs, pointer structs and embedded structs (depth<=3, <=6 fields per struct); `dials` tags at any level, the source's own name tag (or \"-\") and, for pflag, shorthand tags on some leaves; template defaults and a lower and a higher static layer from per-leaf seeds; one of eleven name configs (default, library encoders, harness-defined encoders); " +
+	"who parses is drawn too: in two thirds of the cases the source parses inside Value() (NewSetWithArgs); otherwise the harness acts as a program that parses first — it calls Flags.Parse(argv) on the FlagSet NewSetWithArgs registered its flags in (both packages) or, for pflag, owns the FlagSet, hands it to NewSetWithFlagSet / NewDefaultSetWithFlagSet and parses it — after the constructor and before Value(); the expected values are the same (every occurrence accumulates exactly once); " +
 	"a command line rendered by the harness: any subset of flags, 1..3 occurrences each in any order, -f=v / -f v / bare and =value bool forms, one or two dashes (flag) or long/shorthand forms (pflag), number bases, quoting styles, optionally a `--` terminator and, in a quarter of the cases, one literal just outside a leaf type's range. " +
-	"Oracle: registered flag names equal the names known by construction (source tag verbatim, else dials tags / field-name words along the path joined by the tag encoder; untagged embedded structs contribute nothing); every advertised default reads back (harness parsers) as the template's value; Value() sets exactly the leaves whose flag appeared before `--`, scalars to the last value, collections to first-occurrence-replaces-then-accumulate; stacked with VerifCompose between the two layers every leaf is higher, else flag, else lower, else default; the out-of-range literal makes Value() fail. " +
+	"Oracle: registered flag names equal the names known by construction (source tag verbatim, else dials tags / field-name words along the path joined by the tag encoder; untagged embedded structs contribute nothing); every advertised default reads back (harness parsers) as the template's value; Value() sets exactly the leaves whose flag appeared before `--`, scalars to the last value, collections to first-occurrence-replaces-then-accumulate; stacked with VerifCompose between the two layers every leaf is higher, else flag, else lower, else default; the out-of-range literal makes Value() fail (or already the program's own Parse, when the program parses). " +
 	"non-trivial = at least one flag given and at least one not given on flag-bearing leaves that the lower layer sets; distinct = distinct case JSON"
 
 var c12Assumptions = []string{
 	"config types whose distinct field paths flatten to the same Go field name (AlphaBravo next to Alpha.Bravo) are outside the domain (no distinct flattened leaf names); the rare generated ones are counted as discards",
-	"explicit FlagSets through NewSetWithArgs; flag.CommandLine / os.Args are never touched",
+	"explicit FlagSets through NewSetWithArgs (and pflag's NewSetWithFlagSet / NewDefaultSetWithFlagSet); flag.CommandLine / os.Args are never touched, so the NewCmdLineSet + flag.Parse() flow is represented by pre-parsing the explicit FlagSet",
+	"a program pre-parses only FlagSets whose flags the constructor has already registered (all constructors used here register eagerly; a literal &Set{} registers lazily inside Value() and cannot be pre-parsed)",
 	"two leaves never share a flag name (a second registration of a name is skipped by design)",
 	"the out-of-range literal is the last occurrence of its flag (the standard flag source checks the narrowed range on the final value only)",
 	"string elements of collection flags are spelled bare (plain identifiers), raw-quoted or Go-quoted; the collection syntax itself belongs to C15",
